@@ -29,6 +29,7 @@ import Distill.Model.SchemaOrg
 import Distill.Model.MarkupPage
 import Distill.Model.Srcset
 import Distill.Model.AbsURL
+import Distill.Model.Style
 namespace Distill.Slices
 open Distill Distill.Proto
 
@@ -306,6 +307,15 @@ def wordcounterSlice : P String := do
   let c := selectCounter sample.toList
   let name := match c with | .full => "Full" | .letter => "Letter" | .fast => "Fast"
   pure s!"{name} {c.count text.toList}"
+
+/-- `style value` → what `GetDisplayStyle` takes from the attribute (`-` = tag default) and
+`rxVisibilityHidden.MatchString` -/
+def styleSlice : P String := do
+  let v ← str
+  let d := match Style.display v.toList with
+    | some x => hex (String.ofList x)
+    | none => "-"
+  pure s!"{d} {if Style.visHidden v.toList then 1 else 0}"
 
 /-- `createabs url requestAbs parses resolved` → `CreateAbsoluteURL(url, base)` -/
 def createabsSlice : P String := do
@@ -673,6 +683,7 @@ def dispatch (slice : String) : Option (P String) :=
   | "wordcounter" => some wordcounterSlice
   | "srcset" => some srcsetSlice
   | "createabs" => some createabsSlice
+  | "style" => some styleSlice
   | "strip" => some stripSlice
   | "title" => some titleSlice
   | "textblocks" => some textblocksSlice
